@@ -418,9 +418,10 @@ func propC05(c *Ctx) {
 	accept := w.Fn("dig", "Filter.Accept")
 	inss := m.calls(m.insert)
 	n := 0
+	areg := NewRegion(accept) // the look-up may live in a helper only Accept calls (refContains)
 	for i := range sites {
 		s := &sites[i]
-		if s.Fn != accept {
+		if !areg.Has(s.Fn) {
 			continue
 		}
 		n++
